@@ -41,6 +41,9 @@ def run(ctx) -> None:
     # the shadowing family: a name that is a constant outside and a label inside, over a small alphabet, one statement deeper
     asm_mc.design_level(ctx, "shadow", L + 1)
     progs += asm_mc.programs(ctx, "shadow", L + 1)
+    # shadowing inside a loop body (labels of loop iterations are position-derived symbols too)
+    asm_mc.design_level(ctx, "shadowloop", L + 1)
+    progs += asm_mc.programs(ctx, "shadowloop", L + 1)
     # named scopes inside loop iterations (each iteration exports its own labels)
     asm_mc.design_level(ctx, "loopscope", L + 2)
     progs += asm_mc.programs(ctx, "loopscope", L + 2)
